@@ -72,7 +72,9 @@ func (c *Client) List(ref, pattern string, options *imap.ListOptions) *ListComma
 			enc.Atom(selectOpts[i])
 		})
 	}
-	enc.SP().Mailbox(ref).SP().String(pattern)
+	// The pattern is a mailbox name with wildcards: like any mailbox name it
+	// travels in modified UTF-7 (the server decodes it that way)
+	enc.SP().Mailbox(ref).SP().Mailbox(pattern)
 	if returnOpts := getReturnOpts(options); len(returnOpts) > 0 {
 		enc.SP().Atom("RETURN").SP().List(len(returnOpts), func(i int) {
 			opt := returnOpts[i]
